@@ -525,16 +525,14 @@ def _pure_sympy(tree, syms):
 
 
 def _raised_inside_sympy_simplify(e):
-    """True iff the exception came out of sympy.simplify() as called by the library's simplify(): the innermost frame is SymPy's,
-    and the innermost onnx_ir frame is a `simplify` method.  (Calling sympy.simplify a second time to see whether it raises
+    """True iff the exception of a simplify clause was raised by SymPy / mpmath code itself (innermost frame theirs).  (Calling sympy.simplify a second time to see whether it raises
     again is not reliable: SymPy's global cache makes the outcome depend on what the process simplified before.)"""
     import traceback
 
     frames = traceback.extract_tb(e.__traceback__)
-    if not frames or "sympy" not in frames[-1].filename:
-        return False
-    ours = [f for f in frames if "onnx_ir" in f.filename]
-    return bool(ours) and ours[-1].name == "simplify"
+    # (also while the simplified expression is evaluated: sympy.simplify may return a Piecewise whose dead branch divides by
+    # zero - sign(x) rewritten as x/Abs(x) - and whether SymPy touches that branch varies from run to run)
+    return bool(frames) and ("/sympy/" in frames[-1].filename or "/mpmath/" in frames[-1].filename)
 
 
 def _sympy_simplify_raises(d, exc_type):
